@@ -50,7 +50,9 @@ class World:
     """spec: {"wallet": [[name, Decimal]…], "vaults": [[id, {"coll","short","nft"}]…], "maxId", "positions":
     [[[lo,hi], {"liquidity","p0","p1","transferred"}]…]};
     env: {"rows": [[t, nf, weth, osqth]…], "now": int|None, "cur": [nf, weth, osqth] (used when now is None),
-          "uniPrice": Decimal, "uniOpen": bool}"""
+          "uniPrice": Decimal, "uniOpen": bool, "flip": bool (optional; True = the pool is UniV3Pool(osqth, weth, …): token0 is oSQTH,
+          ticks are those of WETH-per-oSQTH, i.e. negative around 0.1 — the model knows the mainnet orientation only, flipped worlds
+          are judged by the independent oracles)}"""
 
     def __init__(self, spec, env):
         _patch_twap()
@@ -61,7 +63,9 @@ class World:
         self.broker = m["Broker"]()
         self.uni_key = m["MarketInfo"]("Uni", m["MarketTypeEnum"].uniswap_v3)
         self.sq_key = m["MarketInfo"]("Squeeth", m["MarketTypeEnum"].squeeth)
-        self.uni = m["UniLpMarket"](self.uni_key, m["UniV3Pool"](self.weth, self.osqth, 0.3, self.weth))
+        self.flip = bool(env.get("flip", False))
+        pool = m["UniV3Pool"](self.osqth, self.weth, 0.3, self.weth) if self.flip else m["UniV3Pool"](self.weth, self.osqth, 0.3, self.weth)
+        self.uni = m["UniLpMarket"](self.uni_key, pool)
         self.sq = m["SqueethMarket"](self.sq_key, self.uni)
         self.broker.add_market(self.uni)
         self.broker.add_market(self.sq)
@@ -305,7 +309,7 @@ def geo_mean(xs):
 
 
 def lp_amounts(world_or_sqrt, lo, hi, liquidity):
-    """closed-form Uniswap v3 amounts (token0 = WETH, token1 = oSQTH) as exact fractions, in whole tokens"""
+    """closed-form Uniswap v3 amounts (token0, token1) as exact fractions, in whole tokens (both tokens have 18 decimals)"""
     from demeter.uniswap.liquitidy_math import get_sqrt_ratio_at_tick
     s = world_or_sqrt
     sa, sb = sorted((get_sqrt_ratio_at_tick(lo), get_sqrt_ratio_at_tick(hi)))
@@ -321,9 +325,10 @@ def lp_amounts(world_or_sqrt, lo, hi, liquidity):
     return a0 / 10 ** 18, a1 / 10 ** 18
 
 
-def pool_sqrt(uni_price):
+def pool_sqrt(uni_price, flip=False):
+    """sqrt price of the pool from the oSQTH price in WETH; token0 is WETH (quote) unless `flip`"""
     from demeter.uniswap.helper import base_unit_price_to_sqrt_price_x96
-    return base_unit_price_to_sqrt_price_x96(D(uni_price), 18, 18, True)
+    return base_unit_price_to_sqrt_price_x96(D(uni_price), 18, 18, not flip)
 
 
 class Spec:
@@ -332,13 +337,16 @@ class Spec:
     def __init__(self, state, env, twap_weth, twap_osqth, nf):
         self.s, self.env = state, env
         self.tw, self.to, self.nf = fr(twap_weth), fr(twap_osqth), fr(nf)
-        self.sqrt = pool_sqrt(env["uniPrice"])
+        self.flip = bool(env.get("flip", False))
+        self.sqrt = pool_sqrt(env["uniPrice"], self.flip)
         self.pos = {tuple(int(x) for x in k): p for k, p in state["positions"]}
 
     def lp_tokens(self, key):
+        """(WETH, oSQTH) held by the position incl. uncollected fees — by token, whichever of them is token0"""
         p = self.pos[tuple(key)]
         a0, a1 = lp_amounts(self.sqrt, int(key[0]), int(key[1]), int(p["liquidity"]))
-        return a0 + fr(p["p0"]), a1 + fr(p["p1"])
+        t0, t1 = a0 + fr(p["p0"]), a1 + fr(p["p1"])
+        return (t1, t0) if self.flip else (t0, t1)
 
     def eff_coll(self, v):
         c = fr(v["coll"])
@@ -421,11 +429,15 @@ class Runner:
         ctx = self.ctx
         answers = None
         if ctx.driver_ok and self.pending:
-            reqs = [model_req(o.before, o.envj, o.op) for o, _ in self.pending]
-            answers = driver_json(reqs, exe=self.exe)
+            # the model is written for the mainnet orientation (token0 = WETH): flipped worlds are oracle-only
+            idx = [i for i, (o, _) in enumerate(self.pending) if not o.env.get("flip")]
+            reqs = [model_req(self.pending[i][0].before, self.pending[i][0].envj, self.pending[i][0].op) for i in idx]
+            answers = dict(zip(idx, driver_json(reqs, exe=self.exe))) if reqs else {}
         for i, (o, pre) in enumerate(self.pending):
             cause = (o.err or "ok")
-            if answers is not None:
+            if o.env.get("flip"):
+                pre = "flip:" + pre
+            if answers is not None and i in answers:
                 a = answers[i]
                 d = compare_step(a, o.err, o.out, o.actions, o.after)
                 if d:
